@@ -316,6 +316,38 @@ func nsxClashSpace() *nsxSpace {
 	}}
 }
 
+// ids: the device holds rules under the ids r1, r1-1, r1-2, r2 (ids with
+// a numeric suffix are what earlier runs leave behind when the id of a
+// new rule was taken), each absent or with one of three contents; the
+// target has r1, r2, each absent or with one of three contents.  A rule
+// that is written under a fresh id must not replace another device rule.
+func nsxIdSpace() *nsxSpace {
+	ids := []string{"r1", "r1-1", "r1-2", "r2"}
+	mk := func(ids []string, code int64) nsxCfgT {
+		var l []nsxRuleT
+		for _, id := range ids {
+			c := code % 4
+			code /= 4
+			if c == 0 {
+				continue
+			}
+			r := nsxRules[c-1]
+			r.id = id
+			l = append(l, r)
+		}
+		sort.SliceStable(l, func(i, j int) bool { return l[i].seq < l[j].seq })
+		c := nsxCfgT{policies: map[string][]nsxRuleT{}}
+		if len(l) > 0 {
+			c.policies["v1"] = l
+		}
+		return c
+	}
+	grp := map[string][]string{"gA": {"10.1.1.10", "10.1.1.20"}, "gB": {"10.1.2.30", "10.1.2.40"}}
+	return &nsxSpace{name: "ids", n: 256 * 16, gen: func(i int64) (string, core.Files) {
+		return nsxJSON(withGroups(mk(ids, i/16), grp)), core.Files{Main: nsxJSON(withGroups(mk([]string{"r1", "r2"}, i%16), grp))}
+	}}
+}
+
 // two-groups: two rules that each use a group as source and as
 // destination; device references over {gA,gB}, target references over
 // {gA,gB,gC} with changed or unchanged contents.  Groups get shared,
@@ -668,7 +700,7 @@ func (x *nsxx) runChain() {
 }
 
 func nsxSpaces(ctx *core.Ctx) []*nsxSpace {
-	l := []*nsxSpace{nsxRuleSpace("rules", 8), nsxGroupSpace("groups", 4), nsxClashSpace(), nsxTwoGroupSpace("two-groups", nil), nsxServiceSpace(), nsxPolicySpace(), nsxCorpusSpace()}
+	l := []*nsxSpace{nsxRuleSpace("rules", 8), nsxGroupSpace("groups", 4), nsxClashSpace(), nsxTwoGroupSpace("two-groups", nil), nsxServiceSpace(), nsxPolicySpace(), nsxCorpusSpace(), nsxIdSpace()}
 	if ctx.Thorough() {
 		l = append(l, nsxGroupSpace("groups-x", 5))
 	}
